@@ -199,6 +199,15 @@ func (h *orderHarness) Gen(r *Rand, tier string, clean bool) any {
 		t := u[r.Intn(len(u))]
 		u = append(u, TSpec{t[0], t[1], []int{6, 7, 8, 9, 10, 11, 26, 27, 21, 22, 33, 34, 35, 29, 30}[r.Intn(15)]})
 	}
+	if r.Chance(0.3) {
+		// one instant written in two zones: equal as sort keys, so the next key decides
+		for _, pi := range []int{3, 8} {
+			for i := 0; i < 2; i++ {
+				t := u[r.Intn(len(u))]
+				u = append(u, TSpec{t[0], pi, t[2]})
+			}
+		}
+	}
 	if r.Bool() {
 		// anchors within one second, printed with different precision
 		for _, pi := range []int{2, 9, 10, 11} {
